@@ -1282,6 +1282,17 @@ func valueRange(x *vn) (lo, hi *big.Int, ok bool) {
 				}
 			}
 		}
+		// c << y for a positive constant c and a small non-negative amount: [c << lo, c << hi]
+		if x.tok == token.SHL && x.args[0].op == "const" && x.args[1].op != "const" {
+			if c, ok := constValInt(x.args[0].c); ok && c.Sign() > 0 {
+				if l1, h1, ok1 := valueRange(x.args[1]); ok1 && l1.Sign() >= 0 && h1.IsInt64() && h1.Int64() < 62 {
+					lo, hi := new(big.Int).Lsh(c, uint(l1.Int64())), new(big.Int).Lsh(c, uint(h1.Int64()))
+					if hi.Cmp(thi) <= 0 {
+						return lo, hi, true
+					}
+				}
+			}
+		}
 		if x.tok == token.SHR && x.args[1].op == "const" {
 			if k, ok := constValInt(x.args[1].c); ok && k.Sign() >= 0 && k.Int64() < 64 {
 				if l0, h0, ok0 := valueRange(x.args[0]); ok0 && l0.Sign() >= 0 {
